@@ -233,3 +233,107 @@ theorem deriveN_by_name (mk : GoType → GoType → Entry → Except Panic Lens)
     rw [hmk' es hl]
 
 end Golem.Model
+
+namespace Golem.Model
+
+/-! ### soundness and failure lemmas for `deriveN` (used by Props/C02) -/
+
+theorem Pointwise.forall_right {α β : Type} {R : α → β → Prop} {Q : β → Prop} {xs : List α} {ys : List β}
+    (h : Pointwise R xs ys) (hq : ∀ x y, R x y → Q y) : ∀ y ∈ ys, Q y := by
+  induction h with
+  | nil => simp
+  | cons h1 _ ih =>
+    intro y hy
+    rcases List.mem_cons.mp hy with rfl | hy
+    · exact hq _ _ h1
+    · exact ih y hy
+
+theorem zipWith_sound (T : GoType) (seq : List Entry) : (As : List GoType) → (es : List Entry) →
+    es.length = As.length → (∀ e ∈ es, e ∈ seq) → typesMatch As es = true →
+    Pointwise (fun A l => ∃ e ∈ seq, e.field.type = A ∧ l = mkLens T A e) As (List.zipWith (mkLens T) As es)
+  | [], [], _, _, _ => .nil
+  | [], _ :: _, h, _, _ => by simp at h
+  | _ :: _, [], h, _, _ => by simp at h
+  | A :: As, e :: es, h, hmem, htm => by
+    simp only [typesMatch, List.zip_cons_cons, List.all_cons, Bool.and_eq_true, decide_eq_true_eq] at htm
+    exact .cons ⟨e, hmem e (by simp), htm.1, rfl⟩
+      (zipWith_sound T seq As es (by simpa using h) (fun x hx => hmem x (by simp [hx])) htm.2)
+
+/-- Whatever `deriveN` returns is, position by position, a lens on an entry of the full listing
+whose declared type is identical to the requested focus type. -/
+theorem deriveN_sound (mk : GoType → GoType → Entry → Except Panic Lens) (hmk : mk = newLens ∨ mk = newReflector)
+    (T : GoType) (seq : List Entry)
+    (hseq : unfold (if T.kind = .ptr then T.elem else T) [] 0 = .ok seq) (As : List GoType) (attr : List String)
+    (h1 : 1 ≤ As.length) (ls : List Lens) (hok : deriveN mk T As attr = .ok ls) :
+    Pointwise (fun A l => ∃ e ∈ seq, e.field.type = A ∧ l = mkLens T A e) As ls := by
+  by_cases hne : attr = []
+  · subst hne
+    rw [deriveN_by_type mk hmk T seq hseq As] at hok
+    cases hm : mapE (forType seq) As with
+    | error p => simp [hm] at hok
+    | ok es =>
+      simp [hm] at hok; subst hok
+      have hp := (mapE_ok_iff _ _ _).mp hm
+      exact zipWith_sound T seq As es (mapE_length _ _ _ hm)
+        (hp.forall_right (fun A e h => (forType_type seq A e h).2)) (typesMatch_of_forType seq As es hp)
+  · by_cases hlen : As.length ≤ attr.length
+    · rw [deriveN_by_name mk hmk T seq hseq As attr hne h1 hlen] at hok
+      cases hm : mapE (forName seq) (attr.take As.length) with
+      | error p => simp [hm] at hok
+      | ok es =>
+        simp only [hm] at hok
+        by_cases htm : typesMatch As es = true
+        · simp [htm] at hok; subst hok
+          have hp := (mapE_ok_iff _ _ _).mp hm
+          have hl : es.length = As.length := by rw [mapE_length _ _ _ hm]; simp; omega
+          exact zipWith_sound T seq As es hl (hp.forall_right (fun n e h => forName_mem seq n e h)) htm
+        · simp [htm] at hok
+    · have : attr.isEmpty = false := by cases attr <;> simp_all
+      simp [deriveN, this, attrNames_short As.length attr (by omega) hne] at hok
+
+theorem mapE_forName_missing (seq : List Entry) : (names : List String) →
+    (∃ n ∈ names, seq.find? (fun e => e.fieldKey == n) = none) → mapE (forName seq) names = .error .errType
+  | [], h => by simp at h
+  | a :: as, h => by
+    simp only [mapE]
+    rw [forName_find]
+    cases hf : seq.find? (fun e => e.fieldKey == a) with
+    | none => rfl
+    | some e =>
+      have : ∃ n ∈ as, seq.find? (fun e => e.fieldKey == n) = none := by
+        obtain ⟨n, hn, hnone⟩ := h
+        rcases List.mem_cons.mp hn with rfl | hn
+        · simp [hf] at hnone
+        · exact ⟨n, hn, hnone⟩
+      simp [mapE_forName_missing seq as this]
+
+theorem mapE_forType_missing (seq : List Entry) : (As : List GoType) →
+    (∃ A ∈ As, seq.find? (fun e => decide (e.field.type = A)) = none) → mapE (forType seq) As = .error .errType
+  | [], h => by simp at h
+  | a :: as, h => by
+    simp only [mapE]
+    rw [forType_find]
+    cases hf : seq.find? (fun e => decide (e.field.type = a)) with
+    | none => rfl
+    | some e =>
+      have : ∃ A ∈ as, seq.find? (fun e => decide (e.field.type = A)) = none := by
+        obtain ⟨n, hn, hnone⟩ := h
+        rcases List.mem_cons.mp hn with rfl | hn
+        · simp [hf] at hnone
+        · exact ⟨n, hn, hnone⟩
+      simp [mapE_forType_missing seq as this]
+
+theorem typesMatch_false_of_mismatch : (As : List GoType) → (es : List Entry) → (i : Nat) → (A : GoType) → (e : Entry) →
+    As[i]? = some A → es[i]? = some e → e.field.type ≠ A → typesMatch As es = false
+  | [], _, _, _, _, h, _, _ => by simp at h
+  | _ :: _, [], _, _, _, _, h, _ => by simp at h
+  | B :: As, f :: es, 0, A, e, h1, h2, hne => by
+    simp at h1 h2; subst h1; subst h2
+    simp [typesMatch, hne]
+  | B :: As, f :: es, i + 1, A, e, h1, h2, hne => by
+    simp at h1 h2
+    have := typesMatch_false_of_mismatch As es i A e h1 h2 hne
+    simp only [typesMatch] at this ⊢
+    simp [this]
+
+end Golem.Model
